@@ -3,14 +3,17 @@ import json, struct, concurrent.futures
 import vlib
 
 # harness translation units (compiled in parallel): define -> pixel type sets / op kinds served
-TUS = {"PT_A": ["g32s"], "PT_B": ["rgb32s"], "PT_C": ["g8", "g16s"], "PT_D": ["rgb8p"], "PT_E": ["g32f"], "PT_F": ["c2", "ex"]}
-NCH = {"g32s": 1, "rgb32s": 3, "g8": 1, "g16s": 1, "rgb8p": 3, "g32f": 1, "rgb8": 3}
+TUS = {"PT_A": ["g32s"], "PT_B": ["rgb32s"], "PT_C": ["g8", "g16s"], "PT_D": ["rgb8p"], "PT_E": ["g32f"], "PT_F": ["c2", "ex"], "PT_G": ["g8f", "rgb8f", "g16f"]}
+NCH = {"g8f": 1, "rgb8f": 3, "g16f": 1, "g32s": 1, "rgb32s": 3, "g8": 1, "g16s": 1, "rgb8p": 3, "g32f": 1, "rgb8": 3}
 FNS = ["cr", "cc", "vr", "vc"]
 
 def f32bits(x): return struct.unpack("<I", struct.pack("<f", x))[0]
 
+MIXED = ("g8f", "rgb8f", "g16f")
+
 def pix(r, pt, pad=False):
     """one sample; padding samples come from a disjoint, larger range so that reading them shows"""
+    if pt in MIXED: return r.range(70, 100) if pad else r.range(0, 60)       # sums stay inside the 8-bit destination
     if pt == "g32f":
         if pad: return f32bits(64.0 + r.below(64) / 4.0)
         return f32bits((r.range(-80, 80)) / 8.0) if r.chance(2, 3) else f32bits(r.below(1 << 20) / float(1 << 20))
@@ -18,7 +21,12 @@ def pix(r, pt, pad=False):
     if pt == "g16s": return r.range(2000, 3000) if pad else r.range(-1000, 1000)
     return r.range(500, 900) if pad else r.range(-100, 100)
 
-def tap(r, pt):
+def tap(r, pt, ks=2):
+    if pt in MIXED:       # non-negative multiples of 1/8 (exact in float32); a single tap is always fractional
+        return f32bits(r.choice([0.5, 1.5, 0.25, 0.75, 1.25, 0.125, 2.5])) if ks == 1 else f32bits(r.range(0, 3) / 8.0)
+    return tap_(r, pt)
+
+def tap_(r, pt):
     if pt == "g32f": return f32bits(r.range(-16, 16) / 8.0) if r.chance(2, 3) else f32bits(r.below(1 << 16) / float(1 << 16) - 0.5)
     return r.range(-9, 9)
 
@@ -33,7 +41,7 @@ def op_c1(r, fn, var, pt, opt, w, h, ks, c):
                 inner = (P <= y < P + h) if cols else (P <= x < P + w)
                 vals.append(pix(r, pt, pad=not inner))
         planes.append(" ".join(map(str, vals)))
-    taps = " ".join(str(tap(r, pt)) for _ in range(ks))
+    taps = " ".join(str(tap(r, pt, ks)) for _ in range(ks))
     S = r.range(100000, 900000)
     return "c1 %s %s %s %d %d %d %d %d %d | %s | %s" % (fn, var, pt, opt, w, h, ks, c, S, taps, " | ".join(planes))
 
@@ -78,10 +86,11 @@ def gen_ops(ctx):
                         for opt in range(5):
                             ops.append(op_c1(r, fn, "fix", "g32s", opt, w, h, ks, c))
     # 3. other pixel types / larger kernels: random structured sample
-    def rnd(pt, n, fixed_share=4):
+    def rnd(pt, n, fixed_share=4, kmax=None):
         for _ in range(n):
             fn = r.choice(FNS); fixed = r.below(fixed_share) == 0
             ks = r.choice([1, 3, 5, 7, 9]) if fixed else r.range(1, 9 if th else 7)
+            if kmax: ks = r.choice([1, 3, 5]) if fixed else r.range(1, kmax)
             c = r.below(ks); opt = r.below(5)
             w, h = r.range(0, N + 2), r.range(0, N + 2)
             if r.chance(1, 6): w = r.below(ks + 1)           # narrower than the kernel
@@ -89,6 +98,16 @@ def gen_ops(ctx):
     for pt in ("rgb32s", "g8", "g16s", "rgb8p"): rnd(pt, 1500 if th else 350)
     rnd("g32s", 2000 if th else 300)
     rnd("g32f", 3000 if th else 700)
+    # 3b. integral pixels with a float accumulator and FRACTIONAL taps (the stored value is the truncated float sum):
+    #     one-tap kernels (the view_multiplies_scalar shortcut) through all eight entry points x five options, plus longer kernels
+    for pt in MIXED:
+        for fn in FNS:
+            for var, sizes in (("dyn", [1, 1, 2, 3]), ("fix", [1, 1, 3])):
+                for ks in sizes:
+                    for opt in range(5):
+                        for (w, h) in ([(3, 2), (1, 1), (0, 2)] if not th else [(3, 2), (1, 1), (0, 2), (5, 3), (2, 0)]):
+                            ops.append(op_c1(r, fn, var, pt, opt, w, h, ks, r.below(ks)))
+        rnd(pt, 600 if th else 120, kmax=5)       # at most 5 taps of at most 3/8 on pixels <= 100: the sum fits 8 bits
     # 4. convolve_2d: every shape x kernel size x centre (gray32s), samples of the other types
     M = 6 if th else 4
     for w in range(M + 1):
@@ -173,7 +192,7 @@ def run(ctx, ops=None):
     distinct = len({o for o in ops if nontrivial(o)})
     return vlib.finish(ctx, "proof", obligations, discharged,
         rule="op lines: complete cross product (4 functions x 5 options x widths 0..N x kernel sizes 1..K x every centre, dynamic; odd sizes for fixed kernels) on gray32s, "
-             "random structured sample on rgb32s / gray8->32s / gray16s->32s / planar rgb8->rgb32s / gray32f; convolve_2d: every shape x size x centre; extend_*: every shape x count x option; "
+             "random structured sample on rgb32s / gray8->32s / gray16s->32s / planar rgb8->rgb32s / gray32f; integral pixels with float accumulator and fractional taps (gray8, rgb8, gray16; one-tap kernels through all 8 entry points x 5 options); convolve_2d: every shape x size x centre; extend_*: every shape x count x option; "
              "non-trivial = non-empty image and kernel length >= 2 (c1, c2) or extend count > 0 (ex); distinct op lines counted",
         samples=samples, distinct_nontrivial=distinct, assumptions=ASSUME, trusted_base=vlib.TRUSTED_BASE,
         extra={"input_distribution": kinds, "translator_symbols": None,
